@@ -13,7 +13,8 @@ PROP = {
     'level_note': 'Trusts the harness oracle (PROTOCOL.md composition), x/crypto BLAKE2b as confirmed by python3 hashlib on the run\'s '
                   'vectors, rapid and the Go race detector. The writer-side salt is whatever the wrapper draws (any salt satisfies the '
                   'oracle); chosen salts are exercised on the reading side through the harness encoder.',
-    'rule': 'rapid-generated histories of 1-12 operations on two sockets wrapped with the same key (key 4..300 bytes, biased to 4, 31-33, '
+    'rule': 'rapid-generated histories of 1-12 operations on two sockets (plain or UDP-like inner socket, i.e. both wrapper variants) wrapped with the same key ('
+            'key 4..300 bytes, biased to 4, 31-33, '
             '64, 119-121; payload 1..2040 bytes biased to 1, 2, 31-33, 63-65, 1200, 1500, 2039, 2040; all-zero / all-ones / random '
             'content): write through the wrapper, inject a harness-encoded packet with a chosen salt, inject junk of 1..8 bytes, inject '
             'a 0-byte datagram, read, write while the inner socket refuses the datagram (ENOBUFS/EAGAIN bare and wrapped, temporary, '
